@@ -1112,11 +1112,12 @@ theorem spanningRow_cellx {k : ColorCtx} {d : Doc} {bodyA : TblAttrsOf MatV} {le
   rw [elemCellx_rowElem]
   rfl
 
-/-- a footnote / source rendered as table is one row of one cell at the first boundary of its own width vector -/
+/-- a footnote / source rendered as table is one row of one cell ending at the LAST boundary of its own width
+vector (the table's right edge; repo fix — formerly the first boundary) -/
 theorem renderFoot_cellx {k : ColorCtx} {d : Doc} {f : Foot} {o : Option String} {es : List Elem}
     (h : renderFoot k d f o = .ok es) (ht : f.asTable = true) :
     ∃ w e, f.colRelWidth = some w ∧ es = [e] ∧
-      elemCellx e = [((Model.Widths.colWidths w d.page.colWidth).take 1).map twip] ∧
+      elemCellx e = [(Model.Widths.colWidths w d.page.colWidth).getLast?.toList.map twip] ∧
       1 ≤ (Model.Widths.colWidths w d.page.colWidth).length := by
   unfold renderFoot at h
   peel h as A hA
@@ -1129,7 +1130,15 @@ theorem renderFoot_cellx {k : ColorCtx} {d : Doc} {f : Foot} {o : Option String}
     have h := ite_throw_ok h
     obtain ⟨e, rfl, he⟩ := encodeRows_single h
     obtain ⟨h1, h2⟩ := encodeRow_cellx he
-    exact ⟨w, e, rfl, rfl, h2, h1⟩
+    simp only [List.length_cons, List.length_nil, Nat.zero_add] at h1 h2
+    cases hl : (Model.Widths.colWidths w d.page.colWidth).getLast? with
+    | none => rw [hl] at h1; simp at h1
+    | some c =>
+      rw [hl] at h2
+      have hne : Model.Widths.colWidths w d.page.colWidth ≠ [] := by
+        intro hnil; rw [hnil] at hl; simp at hl
+      refine ⟨w, e, rfl, rfl, by rw [hl]; simpa using h2, ?_⟩
+      exact Nat.pos_of_ne_zero (by simpa using hne)
 
 /-- a rendered column header row: its cells end at the first `n` boundaries of the vector `renderHeader` chooses -/
 theorem headerInner_cellx {k : ColorCtx} {d : Doc} {p : Prep} {isFirst : Bool} {idx : Nat} {hdr : Header}
